@@ -657,6 +657,10 @@ def work(args):
 
 # ------------------------------------------------------------------ driver
 def run(ctx: Ctx):
+    from vf.prove import prove
+    prove(ctx, ["specs.toposort"], "C14", lemma_groups=("topo",))  # deductive part: Kahn's topological_sort (specs/toposort.py)
+    ctx.assumptions.append("specs/toposort.py: `nodes` yields pairwise distinct hashable labels (ghost posf), `neighbors` is a pure function "
+                           "returning a finite sequence; topological_sort_edges, strongly_connected_components and condense have no contract (bounded only)")
     use_repo()
     ctx.notes["oracle_self_test_graphs"] = D.self_test()
     q = ctx.quick
